@@ -488,6 +488,146 @@ def known_defect_replay(ctx, workdir):
         ctx.violation(p, case_json(case), observed={'sessions': r.get('sessions')}, key=violation_key(case, p, r))
 
 
+# ---------------------------------------------------------------------------------------------------------------------
+# threads: a faulty session holding the lock while two other sessions queue up behind it
+# ---------------------------------------------------------------------------------------------------------------------
+
+THREAD_SHAPES = ['optimistic', 'immediate', 'ddl', 'raw_write', 'm2m', 'commit_mid', 'body_exc', 'read']
+
+
+def thread_case(workdir, tc):
+    """A runs `shape` with a fault (kind, nth) of its own calls; it is paused right after it has acquired the transaction
+    lock until B waits for that lock (and C, if any, for the pre-lock); then everything runs freely."""
+    opts, body, _prog, _br = SHAPES[tc['shape']]
+    tr = Tracer()
+    path = os.path.join(workdir, 't%d.sqlite' % tc['id'])
+    for ext in ('', '-journal', '-wal', '-shm'):
+        if os.path.exists(path + ext): os.remove(path + ext)
+    E = build(path, tr, timeout=2.0)
+    tr.wrap_locks(E.db.provider)
+    mark = tr.mark()
+    a_holds, gate = threading.Event(), threading.Event()
+    def hook(ev):
+        if ev['i'] is None and ev['call'] == 'acquire' and ev['thread'] == 'A' and not a_holds.is_set():
+            a_holds.set(); gate.wait(10)
+    tr.after_call.append(hook)
+    if tc['fault'] is not None:
+        tr.set_faults([Fault(call=tc['fault'][0], nth=tc['fault'][1], thread='A', exc=tc['exc_class'])])
+    res = {}
+    def runner(name, o, b):
+        def f():
+            e = run_session(E, o, b)
+            res[name] = {'outcome': outcome_kind(e), 'exc': repr(e)[:160] if e is not None else None}
+        return threading.Thread(target=f, name=name, daemon=True)
+    names = ['A'] + ['B', 'C'][:tc['others']]
+    threads = {'A': runner('A', opts, body)}
+    threads['A'].start()
+    a_holds.wait(1.5)
+    def wait_for(pred, secs):
+        end = time.time() + secs
+        while time.time() < end and not pred(): time.sleep(0.002)
+        return pred()
+    if tc['others'] >= 1:
+        threads['B'] = runner('B', FOLLOW[0], FOLLOW[1]); threads['B'].start()
+        wait_for(lambda: ['B', 'acquire'] in tr.lock_waits or 'B' in res, 1.5)
+    if tc['others'] >= 2:
+        threads['C'] = runner('C', FOLLOW[0], FOLLOW[1]); threads['C'].start()
+        wait_for(lambda: ['C', 'pre_acquire'] in tr.lock_waits or ['C', 'acquire'] in tr.lock_waits or 'C' in res, 1.5)
+    queued = sorted(w[0] + ':' + w[1] for w in tr.lock_waits)
+    gate.set()
+    blocked = []
+    for n in names:
+        threads[n].join(WATCHDOG_S)
+        end = time.time() + 30
+        while threads[n].is_alive() and not tr.lock_waits and time.time() < end: threads[n].join(0.2)
+        if threads[n].is_alive(): threads[n].join(WATCHDOG_S)
+        if threads[n].is_alive(): blocked.append(n)
+    evs = tr.since(mark)
+    out = {'names': names, 'results': res, 'blocked': blocked, 'queued': queued, 'waits': list(tr.lock_waits),
+           'lock': E.db.provider.transaction_lock.locked(), 'pre': E.db.provider.pre_transaction_lock.locked(),
+           'lock_order': [[e['thread'], e['call'], e['outcome']] for e in evs if e['i'] is None],
+           'per_thread': {n: tr.compact([e for e in evs if e['thread'] == n]) for n in names},
+           'closes': {str(k): v for k, v in tr.close_counts().items()}}
+    return out
+
+
+def renumber(evs):
+    """connection ids in order of first appearance (each thread has its own pool; the model numbers from 0)"""
+    m = {}; out = []
+    for e in evs:
+        if len(e) == 4 and e[2] is not None:
+            m.setdefault(e[2], len(m)); e = [e[0], e[1], m[e[2]], e[3]]
+        out.append(e)
+    return out
+
+
+def thread_scenarios(ctx, workdir):
+    rng = ctx.rng
+    tcs = []
+    for shape in THREAD_SHAPES:
+        n, _ = baseline_len(ctx, shape, 'fresh', False)
+        out = ctx.driver('C19', [model_request({'shape': shape, 'pool': 'fresh', 'faults': [], 'reconnect': False},
+                                               {'n': 0, 'nextCon': 0, 'poolPid': False, 'closed': []})])[0]
+        calls = [e[0] for e in out['sessions'][0]['events'] if len(e) == 4]
+        points = [None]; seen = {}
+        for c in calls:
+            points.append((c, seen.get(c, 0))); seen[c] = seen.get(c, 0) + 1
+        for extra in ('rollback', 'close'):        # calls that only error handling makes
+            points.append((extra, seen.get(extra, 0)))
+        if not ctx.thorough: points = [None] + rng.sample(points[1:], min(len(points) - 1, 4 if shape in ('read', 'body_exc', 'm2m', 'commit_mid') else 7))
+        for pt in points:
+            tcs.append({'id': len(tcs), 'shape': shape, 'fault': pt, 'others': 2 if (len(tcs) % 3) else 1,
+                        'exc_class': EXC_CLASSES[len(tcs) % len(EXC_CLASSES)]})
+    for tc in tcs:
+        r = thread_case(workdir, tc)
+        inp = {'shape': tc['shape'], 'fault': list(tc['fault']) if tc['fault'] else None, 'others': tc['others'], 'exc_class': tc['exc_class'].__name__}
+        ctx.case(['threads', inp['shape'], inp['fault'], inp['others']], kind='threads:' + tc['shape'])
+        ctx.count('threads-queued:%d' % len(r['queued']))
+        key = 'threads:shape=%s;fault=%s;others=%d' % (tc['shape'], '%s#%d' % tc['fault'] if tc['fault'] else '-', tc['others'])
+        # ---- property oracle on the real threads
+        problems = []
+        if r['blocked']: problems.append('threads %s never finished; waiting: %r' % (r['blocked'], r['waits']))
+        if r['lock'] or r['pre']: problems.append('a provider lock is still held after all sessions ended')
+        for n in r['names'][1:]:
+            if n in r['results'] and r['results'][n]['outcome'] != 'ok':
+                problems.append('the fault-free session of thread %s failed: %s' % (n, r['results'][n]['exc']))
+        holder = None
+        for th, call, oc in r['lock_order']:
+            if oc != 'ok': problems.append('lock misuse: %s by %s raised %s' % (call, th, oc))
+            if call == 'acquire':
+                if holder is not None: problems.append('transaction_lock acquired by %s while %s holds it' % (th, holder))
+                holder = th
+            elif call == 'release':
+                if holder != th: problems.append('transaction_lock released by %s, holder is %s' % (th, holder))
+                holder = None
+        for pb in problems:
+            ctx.violation(pb, inp, observed=r, expected='mutual exclusion, every thread finishes, locks free at the end', key=key)
+        if r['blocked']: continue
+        # ---- correspondence 1: each thread's own event sequence is what the model predicts for the faults it met
+        lock_lists = []
+        for n in r['names']:
+            evs = renumber(canon_real_events(r['per_thread'][n]))
+            lock_lists.append([e[0] for e in evs if len(e) == 1])
+            db = [e for e in evs if len(e) == 4]
+            faults = [i for i, e in enumerate(db) if e[3] != 'ok']
+            shape = tc['shape'] if n == 'A' else None
+            o, b, prog, br = SHAPES[shape] if shape else FOLLOW
+            req = {'op': 'run', 'init': {'n': 0, 'nextCon': 0, 'poolPid': False, 'closed': []},
+                   'sessions': [dict(session_cfg(o, False), prog=prog, bodyRaises=br, faults=faults)]}
+            m = ctx.driver('C19', [req])[0]
+            m_ev = canon_model_events(m['sessions'][0]['events'])
+            if m_ev != evs or m['sessions'][0]['outcome'] != r['results'].get(n, {}).get('outcome'):
+                ctx.divergence('thread %s: model and real session disagree' % n, inp, model={'events': m_ev, 'outcome': m['sessions'][0]['outcome']},
+                               impl={'events': evs, 'outcome': r['results'].get(n)})
+        # ---- correspondence 2: the observed global order of lock events is a run of the interleaving model
+        idx = {n: i for i, n in enumerate(r['names'])}
+        sched = [idx[th] for th, call, oc in r['lock_order']]
+        w = ctx.driver('C19', [{'op': 'schedule', 'threads': lock_lists, 'schedule': sched}])[0]
+        if 'driver_error' in w or not all(w['enabled']) or w['pre'] or w['tx'] or not all(w['finished']) or w['holders_tx'] != 0:
+            ctx.divergence('the observed order of lock operations is not a run of the interleaving model', inp, model=w,
+                           impl={'lock_order': r['lock_order']})
+
+
 def run(ctx):
     if not ctx.driver.ok:
         ctx.note('driver unavailable: correspondence skipped, property oracle only')
@@ -499,6 +639,10 @@ def run(ctx):
         ctx.extra['real_runs_s'] = round(time.time() - t0, 1)
         check_cases(ctx, cases, reals)
         known_defect_replay(ctx, workdir)
+        if ctx.driver.ok:
+            t0 = time.time()
+            thread_scenarios(ctx, workdir)
+            ctx.extra['thread_runs_s'] = round(time.time() - t0, 1)
     finally:
         ponyutil.rmtree(workdir)
 
